@@ -160,6 +160,65 @@ fn check_lazy(ctx: &mut Ctx, api: &str, got: Result<LazyValue, sonic_rs::Error>,
     }
 }
 
+/// A member to skip that holds tens of thousands of containers of ONE kind (whatever a skipper
+/// counts — brackets, depth, members — is counted far beyond 2^16), with the target behind it.
+fn check_many_inner(ctx: &mut Ctx, kind: usize, n: usize) {
+    let inner = match kind % 4 {
+        0 => vec!["{}"; n].join(","),
+        1 => vec!["[]"; n].join(","),
+        2 => (0..n).map(|i| if i % 2 == 0 { "{\"q\":{}}" } else { "{}" }).collect::<Vec<_>>().join(","),
+        _ => vec!["[[]]"; n / 2 + 1].join(","),
+    };
+    let doc = match kind % 4 {
+        0 | 2 => format!("{{\"a\":{{\"x\":{{\"l\":[{}]}}}},\"b\":[1,2,3],\"c\":{{\"d\":\"e\"}}}}", inner),
+        _ => format!("[[[{}],\"s\"],[1,2,3],{{\"d\":\"e\"}}]", inner),
+    };
+    let b = doc.as_bytes();
+    let Ok(d) = recog::parse_document(b) else { return };
+    let paths: Vec<Vec<PathEl>> = match kind % 4 {
+        0 | 2 => vec![
+            vec![PathEl::Key("b".into())],
+            vec![PathEl::Key("b".into()), PathEl::Idx(2)],
+            vec![PathEl::Key("c".into()), PathEl::Key("d".into())],
+            vec![PathEl::Key("a".into()), PathEl::Key("x".into()), PathEl::Key("l".into()), PathEl::Idx(n - 1)],
+            vec![PathEl::Key("zz".into())],
+        ],
+        _ => vec![vec![PathEl::Idx(1)], vec![PathEl::Idx(1), PathEl::Idx(2)], vec![PathEl::Idx(2), PathEl::Key("d".into())], vec![PathEl::Idx(0), PathEl::Idx(1)], vec![PathEl::Idx(0), PathEl::Idx(0), PathEl::Idx(n / 2)], vec![PathEl::Idx(3)]],
+    };
+    let ex = exact(b);
+    let st = std::str::from_utf8(&ex).unwrap();
+    let fs = FastStr::new(st);
+    let lazy_root: Option<LazyValue> = sonic_rs::from_slice(&ex).ok();
+    let owned_root: Option<OwnedLazyValue> = sonic_rs::from_slice(&ex).ok();
+    let base = Some(ex.as_ptr());
+    for p in &paths {
+        let w = Want { res: lookup(&d.root, p) };
+        let pn: Vec<PointerNode> = to_pointer(p);
+        check_lazy(ctx, "get(&[u8])", sonic_rs::get(&ex[..], &pn), &w, b, base, p);
+        check_lazy(ctx, "get(&FastStr)", sonic_rs::get(&fs, &pn), &w, b, None, p);
+        unsafe {
+            check_lazy(ctx, "get_unchecked", sonic_rs::get_unchecked(&ex[..], &pn), &w, b, base, p);
+            check_lazy(ctx, "get_from_faststr_unchecked", sonic_rs::get_from_faststr_unchecked(&fs, &pn), &w, b, None, p);
+        }
+        ctx.ops(2);
+        if let Some(l) = &lazy_root {
+            let got = l.pointer(&pn).map(|v| v.as_raw_str().to_string());
+            let want = w.res.as_ref().ok().map(|n| String::from_utf8_lossy(&b[n.start..n.end]).into_owned());
+            if got != want {
+                ctx.fail("many-inner:LazyValue::pointer", format!("{} containers of one kind in a skipped member, path {:?}: {:?}, the document has {:?}", n, p, got.map(|s| crate::core::truncate(&s, 60)), want.map(|s| crate::core::truncate(&s, 60))));
+            }
+        }
+        if let Some(o) = &owned_root {
+            let got = o.pointer(&pn).map(|v| sonic_rs::to_string(v).unwrap_or_default());
+            let want = w.res.as_ref().ok().map(|n| String::from_utf8_lossy(&b[n.start..n.end]).into_owned());
+            if got != want {
+                ctx.fail("many-inner:OwnedLazyValue::pointer", format!("{} containers of one kind in a skipped member, path {:?}: {:?}, the document has {:?}", n, p, got.map(|s| crate::core::truncate(&s, 60)), want.map(|s| crate::core::truncate(&s, 60))));
+            }
+        }
+    }
+    ctx.class("doc:many-inner-containers");
+}
+
 pub fn check_doc(ctx: &mut Ctx, b: &[u8], seed: u64) {
     let d = match recog::parse_document(b) {
         Ok(d) if d.full_ok() && d.flags.max_depth <= 64 => d,
@@ -380,6 +439,19 @@ impl Check for C10 {
             }
             emit(Case::with("doc", doc::gen_doc(&mut r, &o), &[r.next() as i64]));
         }
+        // members to skip with 2^15..2^17 (and more) containers of one kind inside
+        {
+            let ns: &[i64] = if g.tier == Tier::Quick { &[32_767, 65_534, 65_535, 65_536, 70_000, 131_072] } else { &[255, 256, 32_767, 32_768, 65_534, 65_535, 65_536, 65_537, 70_000, 131_071, 131_072, 200_000, 1_048_577] };
+            let mut idx = 0u64;
+            for kind in 0..4i64 {
+                for n in ns {
+                    idx += 1;
+                    if g.mine(4000 + idx) && (g.scale >= 0.5 || *n <= 70_000) {
+                        emit(Case::with("many-inner", vec![], &[kind, *n]));
+                    }
+                }
+            }
+        }
         // hand-built skipper traps
         if g.shard == 0 {
             for pad in 0..70usize {
@@ -398,10 +470,16 @@ impl Check for C10 {
         }
     }
     fn exec(&self, ctx: &mut Ctx, c: &Case) {
+        if c.entry == "many-inner" {
+            ctx.nontrivial();
+            check_many_inner(ctx, c.p(0) as usize, c.p(1) as usize);
+            ctx.sample("many-inner");
+            return;
+        }
         check_doc(ctx, &c.input, c.p(0) as u64);
         ctx.sample(&c.entry);
     }
     fn required_classes(&self, _b: &str, _t: Tier) -> Vec<&'static str> {
-        vec!["doc:valid", "doc:duplicate-keys", "path:resolves", "path:not-found", "path:wrong-type"]
+        vec!["doc:valid", "doc:duplicate-keys", "path:resolves", "path:not-found", "path:wrong-type", "doc:many-inner-containers"]
     }
 }
